@@ -48,10 +48,10 @@ added = {
  "C05-r4": "external-ingress cases with the hop's ingress rewritten (valid MAC) to 0 / unknown / sibling-owned, delivered over sibling and internal links",
  "C06-r4": "Peer flag assigned per info field (15 neutral path positions), role of the hop derived from its own info field",
  "C07-r4": "segments padded to 31/32/33/48/63 hop fields so the upper bits of the 6-bit SegLen and CurrHF are exercised",
- "C08-r4": "see manifest.d/C08.json (round-4 dimension)",
- "C09-r4": "see manifest.d/C09.json (round-4 dimension)",
+ "C08-r4": "reply-header size sweep: slow-path representatives stretched to every hop count up to 64 x address kinds x EPIC x authentication (reply headers 80-916 bytes, across the 512-byte headroom)",
+ "C09-r4": "router internal address family (IPv4 / IPv6) x offender source / destination host kinds in the size and cause sweeps",
  "C10-r4": "traceroute requests carrying hop-by-hop / end-to-end extension headers in every layout",
- "C15-r4": "timed scenarios over own x announced detect multipliers and intervals, silence probed between all candidate detection times",
+ "C15-r4": "reference machine with the RFC 5880 6.8.4 detection time from received values; timed scenarios over own x announced multipliers and intervals, silence probed between all candidate detection times",
  "C21-r4": "full grid of SPI values (type, direction, epoch, reserved bits) instead of a few samples",
  "C23-r4": "interface-table reloads (10 variants, sequences of 1-3) between extensions; signed MTUs judged",
  "C24-r4": "every certificate-window case under three process time zones (UTC, +05:30, -08:00)",
